@@ -97,7 +97,12 @@ def _shard_worker(job):
 
 def run_shards(module, cfg_for_shard, shards, judge_path, params=None, nprocs=16, tlc_kwargs=None):
     """Run one single-worker TLC per shard, each streaming its vectors into its own judge."""
-    jobs = [(module, cfg_for_shard(s), judge_path, params or {}, tlc_kwargs or {}) for s in shards]
+    jobs = []
+    for s in shards:
+        cfg = dict(cfg_for_shard(s))
+        tk = dict(tlc_kwargs or {})
+        tk.update(cfg.pop('_tlc', {}))          # per-shard TLC options (e.g. a simulation seed)
+        jobs.append((module, cfg, judge_path, params or {}, tk))
     ctx = multiprocessing.get_context('fork')
     with ctx.Pool(min(nprocs, max(1, len(jobs)))) as pool:
         results = pool.map(_shard_worker, jobs, chunksize=1)
